@@ -103,7 +103,15 @@ func (r *responseStorer) StoreResponse(
 	if refIndex < 0 || refIndex >= len(refs) {
 		refs = append(refs, refEntry) // New response reference
 	} else {
+		replaced := refs[refIndex]
 		refs[refIndex] = refEntry // Update existing response reference
+		if replaced != nil && replaced.ResponseID != responseID {
+			// The response changed its id (its Vary changed): a reference that
+			// already pointed at the new id is now a duplicate of this one.
+			refs = slices.DeleteFunc(slices.Clone(refs), func(ref *ResponseRef) bool {
+				return ref != refEntry && ref != nil && ref.ResponseID == responseID
+			})
+		}
 	}
 
 	return r.cache.SetRefs(urlKey, refs)
